@@ -48,3 +48,18 @@ func init() {
 		Rule: flowRule + "non-trivial = at least three callback invocations and (in the faulty configuration) at least one injected fault fired",
 		Must: []string{"run_failed_at_prep", "run_failed_at_exec", "run_failed_at_post", "run_failed_at_fb"}}
 }
+
+func init() {
+	props["C06"] = &propCfg{Parts: []part{{Engine: "flowsim", Quick: 40000, Thorough: 1000000}},
+		Rule: flowRule + "non-trivial = at least three callback invocations and at least one fault fired (failing item, error result, slow or gated callback); batch sizes 0..64, concurrency 0..16, all prep shapes",
+		Must: []string{"completion_order_reversed", "items_in_flight_together", "all_c_workers_busy"}}
+	props["C07"] = &propCfg{Parts: []part{{Engine: "flowsim", Quick: 40000, Thorough: 1000000}},
+		Rule: flowRule + "non-trivial = at least three callback invocations and at least one fault fired; batches up to 32 items, budgets 1..4, concurrency 0..8, independent per-item failure scripts",
+		Must: []string{"completion_order_reversed", "fallback_after_retries"}}
+	props["C08"] = &propCfg{Parts: []part{{Engine: "flowsim", Quick: 30000, Thorough: 600000}, {Engine: "poolsim", Quick: 12000, Thorough: 300000}},
+		Rule: flowRule + "(flowsim: batches with concurrency 0..16 and up to 4c+8 items, half of them with a barrier of min(c,n) mutually dependent executions; poolsim: pools of size -1..16) non-trivial = at least two executions in flight together",
+		Must: []string{"all_c_workers_busy", "all_workers_busy"}}
+	props["C09"] = &propCfg{Parts: []part{{Engine: "flowsim", Quick: 40000, Thorough: 1000000}},
+		Rule: flowRule + "non-trivial = at least three callback invocations and a failing item; batches up to 16 items, concurrency 0..4, stop and continue modes, random schedules and 'failure handled first' schedules (in-flight items parked, failing worker boosted)",
+		Must: []string{"items_in_flight_together"}}
+}
